@@ -637,6 +637,8 @@ def _items_of_slice_iter(ex, it):
     from . import strings
     if isinstance(it, strings.Chars):
         return [(c, True) for c in it.remaining_chars()]
+    if isinstance(it, strings.Bytes):
+        return [(c, True) for c in it.remaining_bytes()]
     raise Unsupported('bulk iteration over %r' % type(it))
 
 
